@@ -562,7 +562,7 @@ func c10Post(c *Ctx, m *Part) {
 func init() {
 	register(&PropDef{
 		ID: "C10", Level: "exploration",
-		Rule:        "G inside the claim at 0 deviations (all gates x containers x 23 leaf kinds) under all 32 sets over N,B,I,W,R, <=1 non-default production under 4 sets (thorough: <=2 under 2), 5 keys: each line redacted in placeholder mode and in encrypt mode, outputs parsed and walked with the labelled input: every leaf either equal in both modes or (placeholder mode replaced a string) the encrypt-mode value is strict base64 that decrypts under the key to the input value; SECRET strings that placeholder mode replaces must be ciphertext; nothing is encrypted that placeholder mode keeps; same keys and shape; one ciphertext per plaintext over the whole dictionary seen by a worker, no two plaintexts share one (injective), a 31-word near-duplicate dictionary (trailing space, case, NFC/NFD, prefixes, empty) digested per worker process and compared across the 16 processes; fail-closed: every 0-deviation line with encryption requested and unusable key material set through the API (0,1,16,32,63,65,128 bytes): no SECRET canary in the output; CLI: the run that creates the key file vs the next run vs reversed line order vs another file vs placeholder mode, leaf-wise relation under the key the CLI stored. distinct = distinct input lines with a SECRET leaf",
+		Rule:        "G inside the claim at 0 deviations (all gates x containers x 23 leaf kinds) under all 32 sets over N,B,I,W,R, <=1 non-default production under 4 sets (thorough: <=2 under 2), 5 keys: each line redacted in placeholder mode and in encrypt mode, outputs parsed and walked with the labelled input: every leaf either equal in both modes or (placeholder mode replaced a string) the encrypt-mode value is strict base64 that decrypts under the key to the input value; SECRET strings that placeholder mode replaces must be ciphertext; nothing is encrypted that placeholder mode keeps; same keys and shape; one ciphertext per plaintext over the whole dictionary seen by a worker, no two plaintexts share one (injective), a 31-word near-duplicate dictionary (trailing space, case, NFC/NFD, prefixes, empty) digested per worker process and compared across the 16 processes; fail-closed: every 0-deviation line with encryption requested and unusable key material set through the API (0,1,16,32,63,65,128 bytes): no SECRET canary in the output; CLI: the run that creates the key file vs the next run vs reversed line order vs another file vs placeholder mode, leaf-wise relation under the key the CLI stored. distinct = distinct input lines with a SECRET leaf" + scaleRule + "; near-duplicates: for lengths {1,2,16,17,64,100,255,256,257,300,520,1300} (thorough + 2049, 4100, 9000) the base text, the L texts differing from it in exactly one position and 4 texts one character longer / shorter, in one process",
 		Assumptions: []string{"5 keys out of 2^512", "inputs never hold a placeholder text as a literal", "the label table of G is the trusted base for 'must be ciphertext'"},
 		Run:         c10Run, Post: c10Post,
 	})
